@@ -53,6 +53,8 @@ class OpenmlSource(Source[Iterable[Tuple[Union[MutableSequence, MutableMapping],
     def read(self) -> Iterable[Union[Dense,Sparse]]:
         """Read and parse the openml source."""
 
+        lines = None
+
         try:
 
             # we only allow three paralellel request, an attempt at being "considerate" to openml
@@ -123,7 +125,10 @@ class OpenmlSource(Source[Iterable[Tuple[Union[MutableSequence, MutableMapping],
             raise
 
         except Exception:
-            #if something unexpected went wrong clear the cache just in case it was corrupted somehow
+            #if something unexpected went wrong clear the cache just in case it was corrupted somehow.
+            #We stop reading the arff lines first. While we are in the middle of them we hold a read lock on
+            #their cache entry and a ConcurrentCacher then refuses to remove it (hiding the actual error with its own).
+            if lines is not None: lines.close()
             self._clear_cache()
             raise
 
